@@ -276,8 +276,12 @@ func TestC04(t *testing.T) {
 		}
 		var expr lang.Expr
 		named := map[string]bool{f1: true}
-		form := rapid.SampledFrom([]string{"value", "value", "type", "len", "index", "dot", "pair", "in"}).Draw(rt, "form")
+		form := rapid.SampledFrom([]string{"value", "value", "type", "len", "index", "dot", "pair", "in", "dollarlit"}).Draw(rt, "form")
 		switch form {
+		case "dollarlit":
+			// the member under its legacy spelling next to string literals that
+			// spell the same characters: a name is a name, a text is a text
+			expr = lang.ArrayLit{Elems: []lang.Expr{lang.Lit{V: lang.Str("$" + f1)}, lang.Name{N: "$" + f1}, lang.Lit{V: lang.Str(f1)}, lang.Name{N: f1}, lang.Lit{V: lang.Str("$" + f1)}}}
 		case "value":
 			expr = ref(f1)
 		case "type":
